@@ -317,9 +317,10 @@ class Server:
                 if not self._pipeline_notfull.wait(timeout * 0.99):
                     raise ServerBacklogFull(len(pipeline), perf_counter() - t0)
 
-            self._input_buffer.put((uid, x))
             pipeline[uid] = fut
-            # See doc of counterpart methods in `AsyncServer`.
+            self._input_buffer.put((uid, x))
+            # The ledger entry must exist before the input enters the pipeline;
+            # otherwise a fast result could reach `_gather_output` first and be dropped.
 
         fut.data['t1'] = perf_counter()
         return fut
@@ -580,8 +581,11 @@ class AsyncServer:
             #     change `pipeline.pop(uid)` in `_gather_output` to `pipeline.pop(uid, None)`;
             # (2) in `call`, protect the calll to `_enqueue` by an `asyncio.shield`.
 
-            self._input_buffer.put((uid, x))
+            # The ledger entry must exist before the input enters the pipeline;
+            # otherwise a fast result could reach `_gather_output` (in another thread)
+            # first and be dropped. There is no `await` between the two statements.
             pipeline[uid] = fut
+            self._input_buffer.put((uid, x))
 
         fut.data['t1'] = perf_counter()  # enqueing finished if `t1` != `t0`
         return fut
